@@ -16,9 +16,37 @@ duplicates — two clean keys that differ by the prefix dir — has its own clos
 (`C12_prefix_collapse_witness`, finding C12-prefix-collapses-distinct-keys) and guard.
 Under the canonical guard the single record is the C01 merge of all spellings
 (`C12_canonical_record_is_merge`), and the totals statement is instantiated with the covdir writer.
+
+WORDING (second review, item 6). The safe region of guard 2 is "KEYS THAT CANONICALISE below S":
+every key `k` of the batch for which `canonicalize(S.join(k))` succeeds and lands on a regular file
+below `S`. It is NOT "files that exist under --source-dir": an existing file is still listed twice
+as soon as one input spells it in a way `S.join(k)` does not resolve — a backslash (`src\a.c`), a
+build-machine prefix removed by `-p`, a path mapping, the source dir's own tail (`proj/src/a.c`),
+`zz/../src/a.c` behind a missing directory, a trailing `/` (closed witnesses
+`C12_existing_backslash_witness`, `…_prefix_witness`, `…_mapping_witness`;
+`C12_existing_file_not_enough_false`). What holds for every batch, whatever its other keys, is the
+per-file statement `C12_canonicalising_keys_share_one_entry`: all keys that canonicalise to one path
+share one map entry, hence at most one record. Further parts added in session 4, wave 2:
+* two DIFFERENT files under one reported path (`C12_outside_source_dir_witness`,
+  `C12_one_path_one_file_false` / `_partial`; finding C12-outside-source-dir-keeps-own-name);
+* Java/Kotlin keys (`Rewrite.addThenRewriteJ`): with every covered file on disk the partial-path
+  lookup is off and guard 2 carries over (`C12_java_all_on_disk_unique`); with ONE covered file
+  missing the lookup runs on every .java/.kt key, existing files included, and an existing file is
+  re-mapped to a deeper file whose path ends with its own when the walk yields that one first
+  (`C12_java_nested_remap_witness`, `C12_java_existing_once_false`; finding
+  C12-partial-path-remaps-existing-file); `…_partial` under "the lookup returns the key's own path";
+  sibling modules `app` / `webapp` are fine (`C12_java_sibling_modules_witness`: component-wise
+  `ends_with`, which is what seed C12-4 replaces by a textual one);
+* `add_results` after fix 7f9b2b3: a canonical path that is not UTF-8 is not used as key
+  (`Rewrite.addCanonU`, `C12_addCanonU_agrees`, `C12_non_utf8_canonical_not_merged`);
+* the HTML writer's view of duplicates (`C12_html_totals_count_once`, `C12_html_totals_false`,
+  `C12_html_global_counts_every_record`): it keys rows by the REPORTED path and skips absolute ones,
+  where covdir keys by `Rec.treePath`.
 -/
 import GrcovModel.Lemmas.RewriteUnique
+import GrcovModel.Lemmas.RewriteAddJ
 import GrcovModel.Lemmas.Stats
+import GrcovModel.Lemmas.StatsHtml
 namespace Grcov.Props.C12
 open Grcov Grcov.UPath Grcov.Glob Grcov.Rewrite AList
 
@@ -479,5 +507,381 @@ example :
     rs.map (·.cov) = rep.map (·.cov) ∧ (rep.map (·.rel)).Nodup ∧
       (∃ t, Stats.covdir rs = .ok t ∧ t.stats.total = 3) ∧ listedTotal (fun _ => true) rep = 3 := by
   refine ⟨rfl, by decide, ⟨_, rfl, by decide⟩, by decide⟩
+
+/-! ### second review, item 6: an EXISTING file below the source dir is not enough -/
+
+/-- `/h/proj/src/a.c`, cwd `/h/proj` -/
+def existFS : FS :=
+  { files := [[[104], [112, 114, 111, 106], [115, 114, 99], [97, 46, 99]]],
+    dirs := [[[104]], [[104], [112, 114, 111, 106]], [[104], [112, 114, 111, 106], [115, 114, 99]]],
+    cwd := [[104], [112, 114, 111, 106]] }
+
+/-- `/h/proj` -/
+def hProj : Bytes := [47, 104, 47, 112, 114, 111, 106]
+/-- `src/a.c` -/
+def srcAC : Bytes := [115, 114, 99, 47, 97, 46, 99]
+/-- `/h/proj/src/a.c` -/
+def absAC : Bytes := [47, 104, 47, 112, 114, 111, 106, 47, 115, 114, 99, 47, 97, 46, 99]
+
+/-- the report all three witnesses below produce: the existing file `src/a.c` twice, the two
+inputs' counts side by side -/
+def twoRecords : List Rec :=
+  [⟨absAC, srcAC, { lines := [(1, 1)] }⟩, ⟨absAC, srcAC, { lines := [(1, 2)] }⟩]
+
+/-- (a) "merge a Windows and a Linux tracefile": `-s /h/proj`, keys `src\a.c` and `src/a.c`,
+`/h/proj/src/a.c` on disk: `add_results` canonicalises the second key only
+(`/h/proj/src\a.c` does not exist), `rewrite_paths` turns the backslash of the first into '/'
+afterwards — two records. -/
+theorem C12_existing_backslash_witness :
+    addThenRewrite { sourceDir := some hProj } existFS
+        [([115, 114, 99, 92, 97, 46, 99], { lines := [(1, 1)] }), (srcAC, { lines := [(1, 2)] })]
+      = .ok twoRecords := by decide +kernel
+
+/-- (c) "merge from the build machine with -p": `-s /h/proj -p /builds/w`, keys
+`/builds/w/src/a.c` and `src/a.c` — two records. -/
+theorem C12_existing_prefix_witness :
+    addThenRewrite { sourceDir := some hProj, prefixDir := some [47, 98, 117, 105, 108, 100, 115, 47, 119] } existFS
+        [([47, 98, 117, 105, 108, 100, 115, 47, 119, 47, 115, 114, 99, 47, 97, 46, 99], { lines := [(1, 1)] }),
+         (srcAC, { lines := [(1, 2)] })]
+      = .ok twoRecords := by decide +kernel
+
+/-- (g) a path mapping `obj/a.c ↦ src/a.c`, keys `obj/a.c` and `src/a.c` — two records. -/
+theorem C12_existing_mapping_witness :
+    addThenRewrite { sourceDir := some hProj, mapping := some [([111, 98, 106, 47, 97, 46, 99], srcAC)] } existFS
+        [([111, 98, 106, 47, 97, 46, 99], { lines := [(1, 1)] }), (srcAC, { lines := [(1, 2)] })]
+      = .ok twoRecords := by decide +kernel
+
+/-- Guard 2 with its file-system hypothesis weakened from "every KEY canonicalises below `S`" to
+"every reported record denotes an existing regular file below `S`" (the reading "files existing
+under --source-dir"): same options, clean source dir. -/
+def C12_existing_file_not_enough_stmt : Prop :=
+  ∀ (cfg : Cfg) (fs : FS) (sn : List Bytes) (batch : List (Bytes × Cov)) (rep : List Rec),
+    cfg.sourceDir = some (render ⟨true, sn⟩) → cfg.mapping = none →
+    (cfg.prefixDir = none ∨ cfg.prefixDir = some (render ⟨true, sn⟩)) →
+    (∀ n ∈ sn, RealName n ∧ 92 ∉ n) →
+    addThenRewrite cfg fs batch = .ok rep →
+    (∀ r ∈ rep, ∃ names, names ≠ [] ∧ (∀ n ∈ names, RealName n ∧ 92 ∉ n) ∧
+      r.abs = render ⟨true, sn ++ names⟩ ∧ fs.resolve r.abs = some (sn ++ names, .file)) →
+    (rep.map (·.rel)).Nodup
+
+/-- FALSE: witness (a) — no mapping, no prefix, both records are the existing `/h/proj/src/a.c`. -/
+theorem C12_existing_file_not_enough_false : ¬ C12_existing_file_not_enough_stmt := by
+  intro h
+  have := h { sourceDir := some hProj } existFS [[104], [112, 114, 111, 106]] _ _ (by decide) rfl
+    (Or.inl rfl) (by decide) C12_existing_backslash_witness
+    (by
+      intro r hr
+      refine ⟨[[115, 114, 99], [97, 46, 99]], by decide, by decide, ?_, ?_⟩
+      · simp only [twoRecords, List.mem_cons, List.not_mem_nil, or_false] at hr
+        rcases hr with rfl | rfl <;> decide
+      · simp only [twoRecords, List.mem_cons, List.not_mem_nil, or_false] at hr
+        rcases hr with rfl | rfl <;> decide +kernel)
+  revert this
+  decide
+
+/-- What DOES hold for every batch, whatever its other keys, its options and the file system: all
+the inputs whose key canonicalises to one path `p` (`realpath(S.join(key)) = p`) — together with an
+input spelled `p` itself when that does not resolve — are folded, by the C01 merge and in batch
+order, into the ONE map entry `p` of a map with pairwise distinct keys; `rewrite_paths` turns a map
+entry into at most one record. (The per-file matcher of harness/c12 checks exactly this on the real
+code.) -/
+theorem C12_canonicalising_keys_share_one_entry (fs : FS) (s : Bytes) (batch : List (Bytes × Cov))
+    (p : Bytes) :
+    NodupKeys (addResults (addCanon fs (some s)) [] batch) ∧
+    get? (addResults (addCanon fs (some s)) [] batch) p
+      = foldInto none ((batch.filter fun kc => addCanon fs (some s) kc.1 = p).map (·.2)) ∧
+    (∀ kc ∈ batch, fs.realpath (push s kc.1) = some p → addCanon fs (some s) kc.1 = p) := by
+  refine ⟨nodupKeys_addResults _ _ _ (by simp [NodupKeys, keys]), ?_, ?_⟩
+  · rw [get?_addResults]; rfl
+  · intro kc _ hr; simp [addCanon, hr]
+
+/-! ### two different files under one reported path -/
+
+/-- `/h/src/x.c` and `/h/x.c`; the source dir is `/h/src` -/
+def outFS : FS :=
+  { files := [[[104], [115, 114, 99], [120, 46, 99]], [[104], [120, 46, 99]]],
+    dirs := [[[104]], [[104], [115, 114, 99]]], cwd := [[104]] }
+
+/-- `-s /h/src`, keys `src/../x.c` and `x.c`: `guess_abs_path` finds that the source dir ENDS WITH
+the key's ancestor `src`, strips it and resolves `/h/src/../x.c` = `/h/x.c`, a file outside the source
+dir; `fixup_rel_path` cannot make that relative to `/h/src` and keeps the key's own normal form `x.c`
+— which is also the name of `/h/src/x.c`. Two different files, one reported path. -/
+theorem C12_outside_source_dir_witness :
+    addThenRewrite { sourceDir := some [47, 104, 47, 115, 114, 99] } outFS
+        [([115, 114, 99, 47, 46, 46, 47, 120, 46, 99], { lines := [(1, 1)] }), ([120, 46, 99], { lines := [(1, 2)] })]
+      = .ok [⟨[47, 104, 47, 120, 46, 99], [120, 46, 99], { lines := [(1, 1)] }⟩,
+             ⟨[47, 104, 47, 115, 114, 99, 47, 120, 46, 99], [120, 46, 99], { lines := [(1, 2)] }⟩] := by
+  decide +kernel
+
+/-- Full statement: a reported path names one file — two records with the same reported path have
+the same absolute path. -/
+def C12_one_path_one_file_stmt : Prop :=
+  ∀ (cfg : Cfg) (fs : FS) (batch : List (Bytes × Cov)) (rep : List Rec),
+    addThenRewrite cfg fs batch = .ok rep → ∀ r1 ∈ rep, ∀ r2 ∈ rep, r1.rel = r2.rel → r1.abs = r2.abs
+
+theorem C12_one_path_one_file_false : ¬ C12_one_path_one_file_stmt := by
+  intro h
+  have := h _ _ _ _ C12_outside_source_dir_witness
+    ⟨[47, 104, 47, 120, 46, 99], [120, 46, 99], { lines := [(1, 1)] }⟩ (by simp)
+    ⟨[47, 104, 47, 115, 114, 99, 47, 120, 46, 99], [120, 46, 99], { lines := [(1, 2)] }⟩ (by simp) rfl
+  revert this
+  decide
+
+/-- Under the canonical guard (every key canonicalises to a regular file below `S`) a reported path
+names one file and one record. -/
+theorem C12_one_path_one_file_partial (cfg : Cfg) (fs : FS) (sn : List Bytes)
+    (batch : List (Bytes × Cov)) (rep : List Rec)
+    (hS : cfg.sourceDir = some (render ⟨true, sn⟩)) (hM : cfg.mapping = none)
+    (hP : cfg.prefixDir = none ∨ cfg.prefixDir = some (render ⟨true, sn⟩))
+    (hsn : ∀ n ∈ sn, RealName n ∧ 92 ∉ n)
+    (hex : ∀ kc ∈ batch, ∃ names, names ≠ [] ∧ (∀ n ∈ names, RealName n ∧ 92 ∉ n) ∧
+      fs.realpath (push (render ⟨true, sn⟩) kc.1) = some (render ⟨true, sn ++ names⟩) ∧
+      fs.resolve (render ⟨true, sn ++ names⟩) = some (sn ++ names, .file))
+    (h : addThenRewrite cfg fs batch = .ok rep) :
+    ∀ r1 ∈ rep, ∀ r2 ∈ rep, r1.rel = r2.rel → r1 = r2 :=
+  eq_of_nodup_map _ _ (C12_unique_partial_canonical cfg fs sn batch rep hS hM hP hsn hex h)
+
+/-! ### Java / Kotlin keys: the partial-path lookup -/
+
+/-- a map key that is the canonical path of a regular file below the clean source dir `/sn` -/
+def CanonKey (fs : FS) (sn : List Bytes) (k : Bytes) : Prop :=
+  ∃ names, names ≠ [] ∧ (∀ n ∈ names, RealName n ∧ 92 ∉ n) ∧ k = render ⟨true, sn ++ names⟩ ∧
+    fs.resolve (render ⟨true, sn ++ names⟩) = some (sn ++ names, .file)
+
+/-- Every covered file is on disk (the canonical guard): whatever the extensions of the keys, the
+lookup is switched off (`needed = false`), nothing is walked, and guard 2 carries over to
+`rewrite_paths` WITH the Java/Kotlin step, for every walk order. -/
+theorem C12_java_all_on_disk_unique (cfg : Cfg) (fs : FS) (sn : List Bytes) (ord : List (List Bytes))
+    (batch : List (Bytes × Cov)) (rep : List Rec)
+    (hS : cfg.sourceDir = some (render ⟨true, sn⟩)) (hM : cfg.mapping = none)
+    (hP : cfg.prefixDir = none ∨ cfg.prefixDir = some (render ⟨true, sn⟩))
+    (hsn : ∀ n ∈ sn, RealName n ∧ 92 ∉ n)
+    (hex : ∀ kc ∈ batch, ∃ names, names ≠ [] ∧ (∀ n ∈ names, RealName n ∧ 92 ∉ n) ∧
+      fs.realpath (push (render ⟨true, sn⟩) kc.1) = some (render ⟨true, sn ++ names⟩) ∧
+      fs.resolve (render ⟨true, sn ++ names⟩) = some (sn ++ names, .file))
+    (h : addThenRewriteJ cfg fs ord batch = .ok rep) :
+    addThenRewrite cfg fs batch = .ok rep ∧ (rep.map (·.rel)).Nodup := by
+  have hnd : needed cfg fs ((addResults (addCanon fs cfg.sourceDir) [] batch).map (·.1)) = false := by
+    apply needed_false_of_all_exist
+    intro s hs k hk
+    rw [hS] at hs; cases hs
+    rcases keys_addResults_subset _ _ _ k hk with h0 | ⟨kc, hkc, ek⟩
+    · simp [keys] at h0
+    · obtain ⟨names, hne, hn, hreal, hres⟩ := hex kc hkc
+      have : k = render ⟨true, sn ++ names⟩ := by rw [← ek]; simp [addCanon, hS, hreal]
+      rw [this]
+      exact exists_canonical_key hP (fun n hn' => (hsn n hn').1) (fun n hn' => (hn n hn').1) hne hres
+  have heq : addThenRewriteJ cfg fs ord batch = addThenRewrite cfg fs batch := by
+    unfold addThenRewriteJ addThenRewrite
+    exact rewritePathsJ_eq_rewritePaths cfg fs ord _ (walkPanics_of_not_needed hnd) fun _ _ => Or.inl hnd
+  rw [heq] at h
+  exact ⟨h, C12_unique_partial_canonical cfg fs sn batch rep hS hM hP hsn hex h⟩
+
+/-- `/s/app/M.java`, `/s/webapp/M.java` -/
+def siblingFS : FS :=
+  { files := [[[115], [97, 112, 112], [77, 46, 106, 97, 118, 97]], [[115], [119, 101, 98, 97, 112, 112], [77, 46, 106, 97, 118, 97]]],
+    dirs := [[[115]], [[115], [97, 112, 112]], [[115], [119, 101, 98, 97, 112, 112]]], cwd := [[115]] }
+
+/-- the walk yields `webapp` before `app` -/
+def siblingOrd : List (List Bytes) :=
+  [[[115]], [[115], [119, 101, 98, 97, 112, 112]], [[115], [119, 101, 98, 97, 112, 112], [77, 46, 106, 97, 118, 97]],
+   [[115], [97, 112, 112]], [[115], [97, 112, 112], [77, 46, 106, 97, 118, 97]]]
+
+/-- Sibling modules with suffix-related NAMES are fine: `-s /s -p /s`, `app/M.java` (two spellings),
+`webapp/M.java`, and a generated `gen/G.java` that is not on disk (so the lookup runs). The path
+`app/M.java` has the candidates `webapp/M.java`, `app/M.java`; `webapp/M.java` does not END WITH
+`app/M.java` component-wise, so `app/M.java` maps to itself although the walk yields `webapp` first:
+three files, three records, the two spellings summed. (Seeded change C12-4 tests the suffix on the
+strings: `webapp/M.java` then wins and the report lists it twice.) -/
+theorem C12_java_sibling_modules_witness :
+    addThenRewriteJ { sourceDir := some [47, 115], prefixDir := some [47, 115] } siblingFS siblingOrd
+        [([97, 112, 112, 47, 77, 46, 106, 97, 118, 97], { lines := [(1, 1)] }),
+         ([46, 47, 97, 112, 112, 47, 47, 77, 46, 106, 97, 118, 97], { lines := [(1, 2)] }),
+         ([119, 101, 98, 97, 112, 112, 47, 77, 46, 106, 97, 118, 97], { lines := [(1, 10)] }),
+         ([103, 101, 110, 47, 71, 46, 106, 97, 118, 97], { lines := [(1, 7)] })]
+      = .ok [⟨[47, 115, 47, 97, 112, 112, 47, 77, 46, 106, 97, 118, 97], [97, 112, 112, 47, 77, 46, 106, 97, 118, 97], { lines := [(1, 3)] }⟩,
+             ⟨[47, 115, 47, 119, 101, 98, 97, 112, 112, 47, 77, 46, 106, 97, 118, 97], [119, 101, 98, 97, 112, 112, 47, 77, 46, 106, 97, 118, 97], { lines := [(1, 10)] }⟩,
+             ⟨[47, 115, 47, 103, 101, 110, 47, 71, 46, 106, 97, 118, 97], [103, 101, 110, 47, 71, 46, 106, 97, 118, 97], { lines := [(1, 7)] }⟩] := by
+  decide +kernel
+
+/-- `/s/app/M.java`, `/s/q/app/M.java` -/
+def nestedFS : FS :=
+  { files := [[[115], [97, 112, 112], [77, 46, 106, 97, 118, 97]], [[115], [113], [97, 112, 112], [77, 46, 106, 97, 118, 97]]],
+    dirs := [[[115]], [[115], [97, 112, 112]], [[115], [113]], [[115], [113], [97, 112, 112]]], cwd := [[115]] }
+
+/-- the walk yields `q` before `app` -/
+def nestedOrd : List (List Bytes) :=
+  [[[115]], [[115], [113]], [[115], [113], [97, 112, 112]], [[115], [113], [97, 112, 112], [77, 46, 106, 97, 118, 97]],
+   [[115], [97, 112, 112]], [[115], [97, 112, 112], [77, 46, 106, 97, 118, 97]]]
+
+/-- the result map after `add_results`: the canonical keys of the two existing files and the
+generated file that is not on disk -/
+def nestedMap : List (Bytes × Cov) :=
+  [([47, 115, 47, 97, 112, 112, 47, 77, 46, 106, 97, 118, 97], { lines := [(1, 1)] }),
+   ([47, 115, 47, 113, 47, 97, 112, 112, 47, 77, 46, 106, 97, 118, 97], { lines := [(1, 2)] }),
+   ([103, 101, 110, 47, 71, 46, 106, 97, 118, 97], { lines := [(1, 7)] })]
+
+/-- A nested module is not: `q/app/M.java` ENDS WITH `app/M.java`, the walk yields it first, and the
+EXISTING file `app/M.java` — named by a key `add_results` canonicalised — is reported as
+`q/app/M.java`, next to that file's own record (finding C12-partial-path-remaps-existing-file). -/
+theorem C12_java_nested_remap_witness :
+    addThenRewriteJ { sourceDir := some [47, 115], prefixDir := some [47, 115] } nestedFS nestedOrd
+        [([97, 112, 112, 47, 77, 46, 106, 97, 118, 97], { lines := [(1, 1)] }),
+         ([113, 47, 97, 112, 112, 47, 77, 46, 106, 97, 118, 97], { lines := [(1, 2)] }),
+         ([103, 101, 110, 47, 71, 46, 106, 97, 118, 97], { lines := [(1, 7)] })]
+      = .ok [⟨[47, 115, 47, 113, 47, 97, 112, 112, 47, 77, 46, 106, 97, 118, 97], [113, 47, 97, 112, 112, 47, 77, 46, 106, 97, 118, 97], { lines := [(1, 1)] }⟩,
+             ⟨[47, 115, 47, 113, 47, 97, 112, 112, 47, 77, 46, 106, 97, 118, 97], [113, 47, 97, 112, 112, 47, 77, 46, 106, 97, 118, 97], { lines := [(1, 2)] }⟩,
+             ⟨[47, 115, 47, 103, 101, 110, 47, 71, 46, 106, 97, 118, 97], [103, 101, 110, 47, 71, 46, 106, 97, 118, 97], { lines := [(1, 7)] }⟩] := by
+  decide +kernel
+
+/-- Full statement for result maps in which SOME covered file is missing: the records of the map
+keys that are canonical paths of existing files below `S` (any sub-list `sub` of the map `m`; the
+other keys may be anything) have pairwise distinct reported paths. -/
+def C12_java_existing_once_stmt : Prop :=
+  ∀ (cfg : Cfg) (fs : FS) (sn : List Bytes) (ord : List (List Bytes)) (m sub : List (Bytes × Cov)),
+    cfg.sourceDir = some (render ⟨true, sn⟩) → cfg.mapping = none →
+    (cfg.prefixDir = none ∨ cfg.prefixDir = some (render ⟨true, sn⟩)) →
+    (∀ n ∈ sn, RealName n ∧ 92 ∉ n) → NodupKeys m → sub.Sublist m →
+    (∀ kc ∈ sub, CanonKey fs sn kc.1) →
+    ((sub.filterMap fun kc => okPart (keyFnJ cfg fs ord m kc)).map (·.rel)).Nodup
+
+theorem C12_java_existing_once_false : ¬ C12_java_existing_once_stmt := by
+  intro h
+  have := h { sourceDir := some [47, 115], prefixDir := some [47, 115] } nestedFS [[115]] nestedOrd nestedMap
+    (nestedMap.take 2) (by decide) rfl (Or.inr (by decide)) (by decide) (by unfold NodupKeys keys; decide)
+    (List.take_sublist 2 nestedMap)
+    (by
+      intro kc hkc
+      simp only [nestedMap, List.take, List.mem_cons, List.not_mem_nil, or_false] at hkc
+      rcases hkc with rfl | rfl
+      · exact ⟨[[97, 112, 112], [77, 46, 106, 97, 118, 97]], by decide, by decide, by decide, by decide +kernel⟩
+      · exact ⟨[[113], [97, 112, 112], [77, 46, 106, 97, 118, 97]], by decide, by decide, by decide, by decide +kernel⟩)
+  revert this
+  decide +kernel
+
+/-- It holds under the guard the witness violates: the lookup returns every such key's own path
+(no other candidate of that file name comes first among those that end with the path; in particular
+when the lookup is not needed, the key is not Java/Kotlin, or no file of the tree has its name). -/
+theorem C12_java_existing_once_partial (cfg : Cfg) (fs : FS) (sn : List Bytes) (ord : List (List Bytes))
+    (m sub : List (Bytes × Cov))
+    (hS : cfg.sourceDir = some (render ⟨true, sn⟩)) (hM : cfg.mapping = none)
+    (hP : cfg.prefixDir = none ∨ cfg.prefixDir = some (render ⟨true, sn⟩))
+    (hsn : ∀ n ∈ sn, RealName n ∧ 92 ∉ n) (hm : NodupKeys m) (hsub : sub.Sublist m)
+    (hcan : ∀ kc ∈ sub, CanonKey fs sn kc.1)
+    (hid : ∀ kc ∈ sub, partialStep (needed cfg fs (m.map (·.1))) (fileToPaths fs ord cfg (m.map (·.1)))
+      (keyPath cfg kc.1) = keyPath cfg kc.1) :
+    ((sub.filterMap fun kc => okPart (keyFnJ cfg fs ord m kc)).map (·.rel)).Nodup := by
+  have hsn1 : ∀ n ∈ sn, RealName n := fun n hn' => (hsn n hn').1
+  have hsubnd : NodupKeys sub := by
+    unfold NodupKeys keys at *
+    exact List.Nodup.sublist (List.Sublist.map _ hsub) hm
+  let G : Bytes → Bytes := fun c => (stripPrefix c (render ⟨true, sn⟩)).getD []
+  have hG : ∀ names, (∀ n ∈ names, RealName n ∧ 92 ∉ n) →
+      G (render ⟨true, sn ++ names⟩) = join names := by
+    intro names hn
+    simp [G, stripPrefix_render hsn1 (fun n hn' => (hn n hn').1)]
+  apply nodup_rel_of_injective _ G sub hsubnd
+  · intro kc hkc r hr
+    obtain ⟨names, hne, hn, ek, hres⟩ := hcan kc hkc
+    rw [ek, hG names hn]
+    have hr' : rewriteKey cfg fs kc = .ok (some r) := by
+      have : keyFnJ cfg fs ord m kc = rewriteKey cfg fs kc := rewriteKeyJ_eq_of_id (hid kc hkc)
+      rw [this] at hr
+      exact (keyRec_eq_some _ _ _ _).1 hr
+    have : kc = (render ⟨true, sn ++ names⟩, kc.2) := by rw [← ek]
+    rw [this] at hr'
+    exact rewriteKey_canonical_key hS hM hP hsn hn hne hres hr'
+  · intro k1 h1 k2 h2 e
+    obtain ⟨kc1, m1, rfl⟩ := List.mem_map.1 h1
+    obtain ⟨kc2, m2, rfl⟩ := List.mem_map.1 h2
+    obtain ⟨n1, _, hn1, e1, _⟩ := hcan kc1 m1
+    obtain ⟨n2, _, hn2, e2, _⟩ := hcan kc2 m2
+    rw [e1, e2, hG n1 hn1, hG n2 hn2] at e
+    have := join_injective (fun n h => (hn1 n h).1) (fun n h => (hn2 n h).1) e
+    rw [e1, e2, this]
+
+/-- the guard on the sibling-module map: each existing file's path is mapped to itself -/
+example : ∀ kc ∈ [(([47, 115, 47, 97, 112, 112, 47, 77, 46, 106, 97, 118, 97] : Bytes), ({} : Cov)),
+      ([47, 115, 47, 119, 101, 98, 97, 112, 112, 47, 77, 46, 106, 97, 118, 97], {})],
+    let cfg : Cfg := { sourceDir := some [47, 115], prefixDir := some [47, 115] }
+    let ks : List Bytes := [[47, 115, 47, 97, 112, 112, 47, 77, 46, 106, 97, 118, 97],
+      [47, 115, 47, 119, 101, 98, 97, 112, 112, 47, 77, 46, 106, 97, 118, 97], [103, 101, 110, 47, 71, 46, 106, 97, 118, 97]]
+    needed cfg siblingFS ks = true ∧
+    partialStep (needed cfg siblingFS ks) (fileToPaths siblingFS siblingOrd cfg ks) (keyPath cfg kc.1) = keyPath cfg kc.1 := by
+  decide +kernel
+
+/-! ### `add_results` and canonical paths that are not UTF-8 (fix 7f9b2b3) -/
+
+/-- `Rewrite.addCanon` — the key step all other C12 theorems use — is the key step of the code
+(`Rewrite.addCanonU`: `Ok(p) if p.to_str().is_some() => p, _ => key`) whenever the canonical path, if
+there is one, is well-formed UTF-8. -/
+theorem C12_addCanonU_agrees (fs : FS) (src : Option Bytes) (key : Bytes)
+    (h : ∀ s p, src = some s → fs.realpath (push s key) = some p → isUtf8 p = true) :
+    addCanonU fs src key = addCanon fs src key :=
+  addCanonU_eq_addCanon fs src key h
+
+/-- `/s/ok/b.c`, `/s/<0xFF>/a.c`, and the link `/s/lnk -> <0xFF>` -/
+def utf8FS : FS :=
+  { files := [[[115], [111, 107], [98, 46, 99]], [[115], [255], [97, 46, 99]]],
+    dirs := [[[115]], [[115], [111, 107]], [[115], [255]]], cwd := [[115]],
+    links := [([[115], [108, 110, 107]], [255])] }
+
+/-- Otherwise the name stays as given and such spellings are NOT merged: `lnk/a.c` and `lnk/./a.c`
+both canonicalise to `/s/<0xFF>/a.c`, which is no `String`; they stay two entries, while the two
+spellings of `ok/b.c` are folded into the entry `/s/ok/b.c`. (Before the fix `add_results` panicked
+here; harness/c12 `utf8_witness` runs this on the real code.) -/
+theorem C12_non_utf8_canonical_not_merged :
+    addResultsU utf8FS (some [47, 115])
+        [([108, 110, 107, 47, 97, 46, 99], { lines := [(1, 1)] }), ([108, 110, 107, 47, 46, 47, 97, 46, 99], { lines := [(1, 2)] }),
+         ([111, 107, 47, 98, 46, 99], { lines := [(1, 3)] }), ([111, 107, 47, 46, 47, 98, 46, 99], { lines := [(1, 4)] })]
+      = [([108, 110, 107, 47, 97, 46, 99], { lines := [(1, 1)] }), ([108, 110, 107, 47, 46, 47, 97, 46, 99], { lines := [(1, 2)] }),
+         ([47, 115, 47, 111, 107, 47, 98, 46, 99], { lines := [(1, 7)] })] := by
+  decide +kernel
+
+/-! ### the HTML writer's view (it keys by the reported path; covdir keys by `Rec.treePath`) -/
+
+/-- Under uniqueness of the relative reported paths the HTML totals count every file once: what the
+directories selected by `inDir` add up (one summand per record with a relative reported path)
+equals the sum over the rows listed below them. -/
+theorem C12_html_totals_count_once (rep : List Rec) (inDir : Bytes → Bool)
+    (h : ((htmlRecs rep).map (·.rel)).Nodup) : dirTotalH inDir rep = listedTotalH inDir rep := by
+  unfold listedTotalH dirTotalH
+  rw [shownH_of_nodup _ h, htmlRecs_idem]
+
+/-- Without it they do not: on the five-spellings report the global HTML total is 5 lines for the
+single listed row with 1 line. -/
+theorem C12_html_totals_false :
+    ∃ rep, rewritePaths {} { files := [], dirs := [], cwd := [] } fiveSpellings = .ok rep ∧
+      dirTotalH (fun _ => true) rep = 5 ∧ listedTotalH (fun _ => true) rep = 1 :=
+  ⟨_, C12_duplicate_witness, by decide, by decide⟩
+
+/-- The same, instantiated with the HTML writer's model (`Stats.htmlGlobal`, tied to `output_html`
+by C13): whatever way the records with a relative reported path are turned into the writer's input
+(any `FileIn` list whose SHOWN members carry those records' data in order), the global line total —
+what the badge and coverage.json are computed from — is the sum over all such records; so it counts
+every file once exactly when no reported path repeats. A record with an ABSOLUTE reported path is
+not in the HTML report at all (`gen_html` returns early), where covdir files it under its canonical
+path (`Rec.treePath`). -/
+theorem C12_html_global_counts_every_record (rep : List Rec) (rs : List Stats.FileIn)
+    (hcov : (rs.filter (·.shown)).map (·.cov) = (htmlRecs rep).map (·.cov)) :
+    (Stats.htmlGlobal rs).stats.totalLines = dirTotalH (fun _ => true) rep ∧
+      (((htmlRecs rep).map (·.rel)).Nodup →
+        (Stats.htmlGlobal rs).stats.totalLines = listedTotalH (fun _ => true) rep) := by
+  have hroot : (Stats.htmlGlobal rs).stats.totalLines = dirTotalH (fun _ => true) rep := by
+    rw [Stats.htmlGlobal_stats_eq, Stats.sumH_totalLines, List.map_map]
+    have : ((fun s : Stats.HStats => s.totalLines) ∘ fun r : Stats.FileIn => Stats.htmlStats r.cov)
+        = (fun c : Cov => c.lines.length) ∘ (·.cov) := rfl
+    rw [this, ← List.map_map, hcov, List.map_map]
+    unfold dirTotalH
+    rw [List.filter_eq_self.2 (by simp)]
+    rfl
+  exact ⟨hroot, fun hnd => by rw [hroot]; exact C12_html_totals_count_once rep _ hnd⟩
+
+/-- an absolute reported path: covdir files the record (under its canonical path), html does not -/
+example :
+    let rep : List Rec := [⟨[47, 115, 47, 97, 46, 99], [47, 115, 47, 97, 46, 99], { lines := [(1, 1)] }⟩,
+                           ⟨[47, 115, 47, 98, 46, 99], [98, 46, 99], { lines := [(1, 0), (2, 5)] }⟩]
+    dirTotal (fun _ => true) rep = 3 ∧ dirTotalH (fun _ => true) rep = 2 ∧
+      listedTotalH (fun _ => true) rep = 2 := by decide
 
 end Grcov.Props.C12
